@@ -38,6 +38,9 @@ Step == /\ t <= Len(Traces)
                        THEN /\ (LinesAgree \/ PrintT(<<"DRIFT", Tr.tid, l, "line counter">>))
                             /\ nxt' = nxt + Len(Ev.ids) /\ lns' = Ev.lines /\ l' = l + 1 /\ t' = t
                        ELSE Reject(DeliverClause)
+                  [] Ev.ev = "Count" ->          \* count_entries(file): the number of entries of the file, whatever the chunking
+                       IF Ev.n = Tr.n THEN nxt' = nxt /\ lns' = lns /\ l' = l + 1 /\ t' = t
+                       ELSE Reject("Count: count_entries differs from the number of entries of the file")
                   [] Ev.ev = "Stop" ->
                        IF Tr.bad > 0 THEN Reject("Stop: malformed input read to the end without an error")
                        ELSE IF L0!CanStop(nxt, Tr.n) THEN Accept ELSE Reject("Stop: entries undelivered")
